@@ -48,6 +48,37 @@ PROPS["C14"] = {
     "thorough": {"cases": 12000000, "floor": 2000000, "time_budget": 3000},
 }
 
+PROPS["C03"] = {
+    "worker": "c03",
+    "variant": "chk",
+    "level": "exploration",
+    "rule": ("case = single-frame lossless Modular image written by jxlgen in generative mode (tokens chosen so decoded pixels "
+             "approximate a target; the model's decoded pixels are the truth): sizes 1x1 .. multi-group (group_size_shift 0..3, "
+             "1..11 passes), grey/RGB + 0..4 extra channels with own depth and dim_shift, depth 1..31 and float, random global "
+             "transforms (all 42 RCT types, palettes incl. delta / implicit entries and palettes of meta channels, default and "
+             "explicit squeeze), per-group local trees and local transforms, 12 tree styles (single leaf Zero/Gradient/any, "
+             "property-9 gradient table, single-property tables, fused decisions, WP properties, previous-channel properties, "
+             "multipliers/offsets), random WP parameters, prefix/ANS with LZ77, permuted TOC. Decoded (a) at frame level with "
+             "jxl-frame/jxl-modular public API for i32 and (if declared sufficient) i16 samples - every channel at native "
+             "resolution, exact; (b) through JxlImage::render_frame with pool none/rayon and narrow/forced-wide buffers for "
+             "channels that are not subsampled. signature = (size class, channel count, depth class, transform classes, global "
+             "tree style, local trees y/n, passes, narrow flag); non-trivial iff >= 16 samples and some residual non-zero"),
+    "assumptions": [
+        "jxlgen modular model (properties, predictors, WP, inverse RCT/palette/squeeze) is written from the format definition",
+        "images declaring modular_16bit_buffers keep every value of every stage within +-(2^12-1) (the domain C12 names); "
+        "wider-but-still-16-bit values make the decoder's narrow squeeze kernel wrap (noted in DESIGN.md, not judged)",
+        "implicit palette entries only for palettes of <= 3 channels (format text and libjxl differ for c >= 3)",
+        "samples > 24 bits and float samples are generated without transforms (no headroom for RCT/squeeze arithmetic)",
+        "image sides <= 300 px in quick, <= 1100 px in thorough",
+    ],
+    "level_text": ("exploration: tens of thousands (quick) to millions (thorough) of independently encoded images, every sample "
+                   "of every channel compared exactly with the encoder-side truth on two decode paths and both buffer widths"),
+    "level_note": "trusted: jxlgen (entropy encoder, header writer, Modular model+encoder), comparison code in vcheck/src/c03.rs",
+    "technique": "runtime differential monitor: independent Modular encoder/model -> real decoder, exact per-sample oracle",
+    "quick": {"cases": 30000, "floor": 8000, "time_budget": 300},
+    "thorough": {"cases": 2500000, "floor": 300000, "time_budget": 3000},
+}
+
 ALL = ["C%02d" % i for i in range(1, 21)]
 HOOK_COMMITS = []
 NOT_APPLICABLE = {p: "check not built yet in this session (work in progress; see DESIGN.md section 9 for order)" for p in ALL if p not in PROPS}
